@@ -389,7 +389,9 @@ def evaluate_history(spec, wd, entropy, stats=None):
         ok, msg = llvm_as("linked.ll", wd)
         if not ok:
             viol.append(("invalid_ir_after_history", msg))
+    if linked and linked[0].get("ir"):
         # what every module defined for the outside is defined in the linked program
+        # (whatever became of the modules in between)
         have = external_definitions(linked[0]["ir"])
         for s in steps:
             if s["stop"] == "full" and s["verdict"] == "ok" and s.get("ir"):
@@ -523,7 +525,7 @@ def make_history_spec(rng, split, files, other_split, other_files, negative_modu
     r = rng.random()
     if r < 0.1:
         spec["wasm"] = True         # the whole history (and its references) through a Compiler retargeted to wasm32
-    elif r < 0.2 and len({(o["g"], o["m"]) for o in ops}) == len(ops) and len(ops) >= 2:
+    elif r < 0.35 and len({(o["g"], o["m"]) for o in ops}) == len(ops) and len(ops) >= 2:
         spec["wasm_from"] = rng.randrange(1, len(ops))      # retargeted in the middle: earlier modules stay, later ones are wasm32
     return spec
 
